@@ -57,7 +57,8 @@ func c13Key(t *rapid.T) ([]byte, string) {
 // c13Run drives Encrypt or Decrypt through the drawn buffer layout and returns
 // the produced bytes.
 func c13Run(c *xts.Cipher, decrypt bool, data []byte, sector uint64, inplace bool, extra int) ([]byte, error) {
-	src := append([]byte{}, data...)
+	srcIn := newIn(data, extra/2) // input with spare capacity
+	src := srcIn.s
 	var dst []byte
 	if inplace {
 		dst = src
@@ -79,8 +80,8 @@ func c13Run(c *xts.Cipher, decrypt bool, data []byte, sector uint64, inplace boo
 		return nil, fmt.Errorf("%s(len=%d, sector=%#x): %v", name, len(data), sector, err)
 	}
 	if !inplace {
-		if !bytes.Equal(src, data) {
-			return nil, fmt.Errorf("%s modified its input (len=%d)", name, len(data))
+		if !srcIn.intact() {
+			return nil, fmt.Errorf("%s modified its input or the spare capacity behind it (len=%d)", name, len(data))
 		}
 		if !allA5(dst[len(data):]) {
 			return nil, fmt.Errorf("%s wrote beyond len(input)=%d", name, len(data))
@@ -94,10 +95,23 @@ func c13Check(key, pt []byte, sector uint64, inplace bool, extra int) error {
 	if err != nil {
 		return fmt.Errorf("harness: %v", err)
 	}
-	c, err := xts.NewCipher(aes.NewCipher, key)
+	// Two Cipher objects are made from the SAME key slice (which has spare
+	// capacity) before either is used; crypto/aes has consumed the key when
+	// NewCipher returns, so the caller then reuses the buffer.  Encrypt runs on
+	// the first object, Decrypt on the second.
+	keyIn := newIn(key, len(pt)/16%9)
+	c, err := xts.NewCipher(aes.NewCipher, keyIn.s)
 	if err != nil {
 		return fmt.Errorf("xts.NewCipher(%d-byte key): %v", len(key), err)
 	}
+	cDec, err := xts.NewCipher(aes.NewCipher, keyIn.s)
+	if err != nil {
+		return fmt.Errorf("xts.NewCipher(%d-byte key), second object: %v", len(key), err)
+	}
+	if !keyIn.intact() {
+		return fmt.Errorf("xts.NewCipher modified the key slice or the spare capacity behind it")
+	}
+	keyIn.clobber(0x6b)
 	ct, err := c13Run(c, false, pt, sector, inplace, extra)
 	if err != nil {
 		return err
@@ -119,7 +133,7 @@ func c13Check(key, pt []byte, sector uint64, inplace bool, extra int) error {
 			}
 		}
 	}
-	back, err := c13Run(c, true, ct, sector, inplace, extra)
+	back, err := c13Run(cDec, true, ct, sector, inplace, extra)
 	if err != nil {
 		return err
 	}
@@ -129,7 +143,7 @@ func c13Check(key, pt []byte, sector uint64, inplace bool, extra int) error {
 	}
 	// Decrypt on its own data (not an Encrypt output of this call)
 	wantD, _ := refnacl.XTS(key, pt, sector, true)
-	gotD, err := c13Run(c, true, pt, sector, !inplace, extra)
+	gotD, err := c13Run(cDec, true, pt, sector, !inplace, extra)
 	if err != nil {
 		return err
 	}
